@@ -37,10 +37,19 @@ def make_mock(rng, log):
                     doms.append(list(range(v.lo, v.hi + 1)))
             cs = [core.parse_sx(exprio.pexpr(c)) for c in self.cs]
             models = []
-            for combo in itertools.product(*doms):
-                asg = dict(zip(names, combo))
-                if all(exprio.ev(c, asg) is True for c in cs):
-                    models.append(combo)
+            total = 1
+            for d in doms:
+                total *= len(d)
+                if total > 300000:
+                    break
+            if total > 300000:
+                # a large program: propagation first, enumeration of what stays open (same models, same order)
+                models = [tuple(m[nm] for nm in names) for m in dslgen.scalable_models(names, doms, cs, exprio.ev, "or", "and")]
+            else:
+                for combo in itertools.product(*doms):
+                    asg = dict(zip(names, combo))
+                    if all(exprio.ev(c, asg) is True for c in cs):
+                        models.append(combo)
             log["calls"].append([exprio.pexpr(c) for c in self.cs])
             if not models:
                 log["answers"].append(None)
@@ -109,6 +118,75 @@ def _session(rng):
     return s, keys
 
 
+def _fixed_session(k):
+    """The k-th deterministic session with integer facts outside CPython's small-int cache (dslgen.bigint_session), keys
+    registered (in one call or one by one)."""
+    s, bools, ints = dslgen.bigint_session(k)
+    keys = list(s._verif_keys)
+    if k % 2:
+        s.add_answer_key(keys)
+    else:
+        for v in keys:
+            s.add_answer_key(v)
+    return s, keys
+
+
+N_FIXED = dslgen.N_BIGINT
+
+
+def _large_bad(r, s, facts):
+    """Result of a real solve() on a large constructed session vs the facts known by construction; None when they agree."""
+    if isinstance(r, str):
+        return "verdict", f"raised {r}"
+    if r is not True:
+        return "verdict", f"returned {r!r} but the program is satisfiable"
+    wrong = [(i, v.sol, facts[i]) for i, v in enumerate(s.variables)
+             if s.is_answer_key[i] and (v.sol != facts[i] or type(v.sol) is not type(facts[i]))]
+    if not wrong:
+        return None
+    i, got, want = wrong[0]
+    nkey = sum(1 for k in s.is_answer_key[:i] if k) + 1
+    kind = "undetermined-reported" if want is None else ("determined-missed" if got is None else "wrong-value")
+    return kind, (f"{len(wrong)} answer keys wrong, first: variable #{i} (the {nkey}th answer key of {sum(s.is_answer_key)}): sol={got!r} but the "
+                  f"exact fact is {want!r}" + (f"; also wrong: variables {[w[0] for w in wrong[1:6]]}" if len(wrong) > 1 else ""))
+
+
+def _large_run(rng, kind, n, tag):
+    """One large constructed session through one route.  Returns (solver, facts, text, result, log)."""
+    import warnings
+    s, facts, text = dslgen.large_session(kind, n)
+    log = {"calls": [], "answers": []}
+    with warnings.catch_warnings():
+        warnings.simplefilter("ignore")
+        try:
+            if tag == "z3-after-find_answer":
+                core.with_timeout(60, s.find_answer, "z3")
+            if tag == "mock":
+                r = core.with_timeout(120, s.solve, backend=make_mock(rng, log))
+            else:
+                r = core.with_timeout(60, s.solve, "z3")
+        except Exception as e:
+            r = "err:" + core.err_name(e)
+    return s, facts, text, r, log
+
+
+def _large_finding(kind, n, tag, text, bad):
+    return Finding("solve:large:" + tag.split("-")[0] + ":" + bad[0],
+                   f"Solver.solve({tag}) on the large program [{kind}, n={n}: {text}]: {bad[1]}",
+                   {"large": [kind, n], "backend": tag})
+
+
+def _large_sugar(rng, kind, n, name):
+    """The same large session through a text-protocol backend talking to the reference protocol solver of c03."""
+    from . import c03
+    s, facts, text = dslgen.large_session(kind, n)
+    bad = c03._e2e(rng, list(s.variables), list(s.constraints), list(s.is_answer_key), name, facts=facts)
+    if not bad:
+        return None
+    return Finding("solve:large:" + name + ":" + bad[0], f"large program [{kind}, n={n}: {text}]: {bad[1]}",
+                   {"large": [kind, n], "backend": name, "sugar_route": True})
+
+
 def _key_sols(s):
     return ["-" if not k else ("N" if v.sol is None else v.sol) for v, k in zip(s.variables, s.is_answer_key)]
 
@@ -118,13 +196,19 @@ def _correspond(ctx):
     ctx.extra["rule"] = ("random well-typed programs through the real DSL (<=3 bools, <=2 small-domain ints) x key subsets (none/some/all); "
                          "(a) real Solver.solve(backend=MockBackend) where the mock picks each returned model from the run's PRNG; the same "
                          "oracle answers drive the Lean refineLoop; verdict and every key's sol compared; (b) real solve('z3') vs the Lean "
-                         "executable spec of exact facts (enumeration); non-trivial = satisfiable with at least one key; distinct by program+keys")
+                         "executable spec of exact facts (enumeration); non-trivial = satisfiable with at least one key; distinct by program+keys; "
+                         "first the deterministic sessions of dslgen.bigint_session (integer facts outside CPython's small-int cache -5..256 next to "
+                         "undetermined keys, cache edges, keys next to non-keys), each also through plain `sugar` and one native-deduction backend; "
+                         "(c) LARGE constructed programs (dslgen.LARGE_CASES: 513..1030 answer keys, forced units / equality chains / mixed keys and "
+                         "non-keys, free keys on both sides of the 512th key; exact facts known by construction): mock route (propagating "
+                         "enumerator) vs the Lean refineLoop and the constructed facts, z3 fresh and after find_answer, plain `sugar` and one "
+                         "native backend with the reference protocol solver vs the constructed facts")
     drv = core.Driver()
     lines, meta = [], []
     for k in range(ctx.n(400, 5000)):
-        state = ctx.rng.getstate()
+        fixed = k < N_FIXED
         try:
-            s, keys = _session(ctx.rng)
+            s, keys = _fixed_session(k) if fixed else _session(ctx.rng)
         except Exception as e:
             ctx.count("gen-error:" + core.err_name(e))
             continue
@@ -159,7 +243,7 @@ def _correspond(ctx):
         # "the same whether the backend computes such facts itself or cspuz derives them by re-solving": the same program through
         # the text-protocol backends -- plain `sugar` (cspuz's own refinement loop over an external answer finder) and one
         # backend with native deduction -- each talking to a reference solver of the Sugar protocol written from its documentation
-        if ctx.rng.random() < ctx.n(0.25, 0.5) and all(v.id == k for k, v in enumerate(s.variables)):
+        if (fixed or ctx.rng.random() < ctx.n(0.25, 0.5)) and all(v.id == k for k, v in enumerate(s.variables)):
             from . import c03
             for name in ("sugar", ctx.rng.choice(["sugar_extended", "csugar", "enigma_csp", "cspuz_core"])):
                 try:
@@ -202,10 +286,50 @@ def _correspond(ctx):
         nontrivial = real[0] is True and any(s.is_answer_key)
         ctx.case({"decls": decls, "keys": keyflags, "constraints": cs[:3], "real": sx(real)}, (decls, keyflags, " ".join(cs)) if nontrivial else None)
         ctx.count(f"calls:{len(log['answers'])}")
+    # LARGE programs (hundreds of answer keys; exact facts known by construction, brute force impossible): the mock route
+    # against the Lean refinement loop AND the constructed facts, z3 (fresh / after find_answer) and the text-protocol backends
+    # against the constructed facts
+    if not hasattr(ctx, "concrete"):
+        ctx.concrete = []
+    for kind, n in dslgen.LARGE_CASES:
+        for tag in ("mock", "z3", "z3-after-find_answer"):
+            s, facts, text, r, log = _large_run(ctx.rng, kind, n, tag)
+            ctx.count("large:" + tag)
+            bad = _large_bad(r, s, facts)
+            if bad:
+                ctx.disagree("exact-facts-large:" + tag + ":" + bad[0], program=f"{kind} n={n}: {text}", what=bad[1])
+                ctx.concrete.append(_large_finding(kind, n, tag, text, bad))
+            if tag == "mock" and not isinstance(r, str):
+                decls = "(" + " ".join(exprio.pdecl(v) for v in s.variables) + ")"
+                cs = [exprio.pexpr(c) for c in s.constraints]
+                answers = sx(["N" if a is None else a for a in log["answers"]])
+                lines.append(f"(solve {decls} {sx(list(s.is_answer_key))} {answers} " + " ".join(cs) + ")")
+                meta.append(("mock-large", f"{kind} n={n}: {text}", [r, _key_sols(s)], len(log["answers"])))
+                ctx.count(f"large:calls:{len(log['answers'])}")
+                ctx.case({"large": [kind, n], "program": text, "backend_calls": len(log["answers"]), "real": sx(r)}, ("large", kind, n))
+        for name in ("sugar", ctx.rng.choice(["sugar_extended", "csugar", "enigma_csp", "cspuz_core"])):
+            try:
+                f = _large_sugar(ctx.rng, kind, n, name)
+            except core.RealTimeout:
+                raise
+            except Exception as e:
+                f = None
+                ctx.count("large:sugar-route:skipped:" + core.err_name(e))
+            ctx.count("large:sugar-route:" + name)
+            if f:
+                ctx.disagree("sugar-route-large:" + f.signature, program=f"{kind} n={n}", what=f.what)
+                ctx.concrete.append(f)
     outs = drv.run(lines)
     for m, out in zip(meta, outs):
         t = core.parse_sx(out)
-        if m[0] == "mock":
+        if m[0] == "mock-large":
+            real = m[2]
+            want = [sx(real[0]), [sx(x) for x in real[1]]]
+            if t[0] != want[0] or (real[0] is True and t[1] != want[1]):
+                diff = [(i, a, b) for i, (a, b) in enumerate(zip(want[1], t[1])) if a != b][:6] if isinstance(t[1], list) else []
+                ctx.disagree("refinement-loop-large", program=m[1], backend_calls=m[3], real_verdict=want[0], model_verdict=sx(t[0]),
+                             first_differences_index_real_model=diff)
+        elif m[0] == "mock":
             real = m[4]
             r = [sx(real[0]), [sx(x) for x in real[1]]] if real[0] != "err" else ["err", real[1]]
             ctx.count("verdict:" + str(real[0]))
@@ -243,9 +367,27 @@ def search(ctx, why):
     """Real solve('z3') and real solve(MockBackend) vs brute-force exact facts (harness's own evaluator)."""
     import warnings
     found = {}
+    # large constructed programs first (each of the routes once)
+    for kind, n in dslgen.LARGE_CASES:
+        for tag in ("z3", "mock", "z3-after-find_answer"):
+            s, facts, text, r, log = _large_run(ctx.rng, kind, n, tag)
+            ctx.count("search:large:" + tag)
+            bad = _large_bad(r, s, facts)
+            if bad:
+                f = _large_finding(kind, n, tag, text, bad)
+                found.setdefault(f.signature, f)
+        for name in ("sugar", ctx.rng.choice(["sugar_extended", "csugar", "enigma_csp", "cspuz_core"])):
+            try:
+                f = _large_sugar(ctx.rng, kind, n, name)
+            except core.RealTimeout:
+                raise
+            except Exception:
+                f = None
+            if f:
+                found.setdefault(f.signature, f)
     for k in range(ctx.n(800, 4000)):
         try:
-            s, keys = _session(ctx.rng)
+            s, keys = _fixed_session(k) if k < N_FIXED else _session(ctx.rng)
             want = _exact(s)
         except Exception:
             continue
@@ -287,6 +429,18 @@ def replay(ctx, data):
     """Re-run the stored program under three histories: fresh Solver; find_answer() first; solve() with only the first key, then
     the remaining keys added."""
     import warnings
+    if data.get("large"):
+        kind, n = data["large"]
+        for _ in range(3):
+            if data.get("sugar_route"):
+                f = _large_sugar(ctx.rng, kind, n, data["backend"])
+            else:
+                s, facts, text, r, log = _large_run(ctx.rng, kind, n, data["backend"])
+                bad = _large_bad(r, s, facts)
+                f = _large_finding(kind, n, data["backend"], text, bad) if bad else None
+            if f:
+                return Finding("solve:replay", f.what, data)
+        return None
     if data.get("sugar_route"):
         from . import c03
         s = exprio.build_session(data["decls"], data["constraints"], list(data["keys"]))
